@@ -5,7 +5,7 @@ usage: tools/seedtest.py [seed names...] [--props C01,C02] [--all-props]
 For each seed: git apply in /tmp/seedwt (a detached worktree of /repo HEAD), run
 `./check <P> --no-write --root /tmp/seedwt/pams` for the seed's own property (or all), revert.
 """
-import json, os, subprocess, sys, glob
+import json, os, shutil, subprocess, sys, glob
 from concurrent.futures import ThreadPoolExecutor
 VERIF = os.path.dirname(os.path.dirname(os.path.abspath(__file__)))
 args = [a for a in sys.argv[1:] if not a.startswith("--")]
@@ -16,8 +16,9 @@ have = {c["property_id"] for c in json.load(open(os.path.join(VERIF, "MANIFEST.j
 
 def run(seed):
     wt = f"/tmp/seedwt_{seed}"
-    subprocess.run(["git", "-C", "/repo", "worktree", "remove", "--force", wt], capture_output=True)
-    subprocess.run(["git", "-C", "/repo", "worktree", "add", "--detach", wt, "HEAD", "-q"], check=True, capture_output=True)
+    shutil.rmtree(wt, ignore_errors=True)
+    os.makedirs(wt)
+    subprocess.run(f"git -C /repo archive HEAD | tar -x -C {wt}", shell=True, check=True)
     try:
         r = subprocess.run(["git", "-C", wt, "apply", os.path.join(VERIF, "seeded", seed, "patch.diff")], capture_output=True, text=True)
         if r.returncode:
@@ -33,7 +34,7 @@ def run(seed):
             res[p] = (r.returncode, rules, errs[:2])
         return seed, res
     finally:
-        subprocess.run(["git", "-C", "/repo", "worktree", "remove", "--force", wt], capture_output=True)
+        shutil.rmtree(wt, ignore_errors=True)
 
 with ThreadPoolExecutor(8) as ex:
     for seed, res in ex.map(run, seeds):
